@@ -46,7 +46,7 @@ def wf_ip(p):
     if len(p) < 20 or p[0] >> 4 != 4:
         return None
     ihl = (p[0] & 15) * 4
-    tl = be16(p, 2)
+    tl = be16(p, 2) or (len(p) % 65536)
     ff = be16(p, 6)
     if ihl < 20 or ihl > tl or tl > len(p) or (ff >> 13) & 1 or ff & 0x1fff:
         return None
@@ -141,6 +141,7 @@ def judge(case, fo, allflags):
 # ------------------------------------------------------------------ model side
 def read_wirings(ctx):
     out = ctx.coq_eval("wirings", "From Coq Require Import ZArith List String.\nFrom SX Require Import Spec.C03.\n"
+                                  "Import ListNotations.\nOpen Scope Z_scope.\nSet Printing Depth 1000000.\n"
                                   "Definition N := Eval vm_compute in wiring_names.\n"
                                   "Definition D := Eval vm_compute in wiring_dump.\nPrint N. Print D.\n")
     flat = " ".join(out.split())
